@@ -298,12 +298,17 @@ def collect : List X → Str × List (X × Str)
   | .text s :: r => (s ++ (collect r).1, (collect r).2)
   | .elem tg as ks :: r => ([], (.elem tg as ks, (collect r).1) :: (collect r).2)
 
+/-- the white space the exporter writes after a child's tail: the next sibling's indentation, or what precedes the end tag -/
+def sepAfter (closing : Str) (level : Nat) : List Tree → Str
+  | [] => closing
+  | _ :: _ => indentOf level
+
 /-- what `collect` finds among the children of an element the exporter wrote: each child element, in order,
     followed by a newline, its tail and the indentation of whatever comes next -/
 def pairsG (pns : Dict) (level : Nat) (closing : Str) : List Tree → List (X × Str)
   | [] => []
   | c :: cs => (xElemG c (some pns) level,
-                "\n".toList ++ tailText c ++ (match cs with | [] => closing | _ => indentOf level)) :: pairsG pns level closing cs
+                "\n".toList ++ tailText c ++ sepAfter closing level cs) :: pairsG pns level closing cs
 
 theorem xElemG_is_elem (t : Tree) (p : Option Dict) (l : Nat) : ∃ tg as ks, xElemG t p l = .elem tg as ks := by
   cases t with
@@ -311,12 +316,12 @@ theorem xElemG_is_elem (t : Tree) (p : Option Dict) (l : Nat) : ∃ tg as ks, xE
 
 theorem collect_kids (pns : Dict) (level : Nat) (closing : Str) : ∀ (cs : List Tree) (rest : List X),
     collect rest = (closing, []) →
-    collect (xKidsG cs pns level ++ rest) = ((match cs with | [] => closing | _ => indentOf level), pairsG pns level closing cs)
-  | [], rest, h => by simp only [xKidsG, List.nil_append, h, pairsG]
+    collect (xKidsG cs pns level ++ rest) = (sepAfter closing level cs, pairsG pns level closing cs)
+  | [], rest, h => by simp only [xKidsG, List.nil_append, h, pairsG, sepAfter]
   | c :: cs, rest, h => by
     have ih := collect_kids pns level closing cs rest h
     obtain ⟨tg, as, ks, he⟩ := xElemG_is_elem c (some pns) level
-    simp only [xKidsG, List.cons_append, List.nil_append, collect, he, ih, pairsG, tailText]
+    simp only [xKidsG, List.cons_append, List.nil_append, collect, he, ih, pairsG, tailText, sepAfter]
     simp
 
 /-- child order and surrounding text of the denoted element, for the four shapes of a node -/
@@ -336,7 +341,7 @@ theorem C07_general_children (i n : String) (c tl p : Option String) (a e ns : D
       · have := collect_kids ns (level + 1) (indentOf level) (k :: ks) [X.text (indentOf level)] (by simp [collect])
         simp only [List.append_assoc, List.singleton_append, List.cons_append, List.nil_append, collect, this]
         have h := wsStrip_pad ("\n".toList ++ indentOf (level + 1)) [] [] (by simp [indent_ws]; rfl) rfl
-        simpa using h
+        simpa [sepAfter] using h
   | some content =>
     refine ⟨[X.text content.toList] ++ xKidsG cs ns (level + 1), by simp [xElemG], ?_, ?_⟩
     · have := collect_kids ns (level + 1) [] cs [] (by simp [collect])
@@ -346,10 +351,10 @@ theorem C07_general_children (i n : String) (c tl p : Option String) (a e ns : D
       simp only [List.append_nil] at this
       simp only [List.singleton_append, collect, this]
       cases cs with
-      | nil => simp
+      | nil => simp [sepAfter]
       | cons k ks =>
         have h := wsStrip_pad [] content.toList (indentOf (level + 1)) rfl (indent_ws _)
-        simpa using h
+        simpa [sepAfter] using h
 
 /-- the text that follows a child element is its tail up to surrounding white space -/
 theorem C07_general_tail (pns : Dict) (level : Nat) (closing : Str) (hc : closing.all isWs = true) (cs : List Tree) :
@@ -361,7 +366,7 @@ theorem C07_general_tail (pns : Dict) (level : Nat) (closing : Str) (hc : closin
     simp only [pairsG, List.zip_cons_cons, List.mem_cons] at hp
     rcases hp with rfl | hp
     · simp only
-      have hw : (match cs with | [] => closing | _ => indentOf level).all isWs = true := by
+      have hw : (sepAfter closing level cs).all isWs = true := by
         cases cs with
         | nil => exact hc
         | cons _ _ => exact indent_ws level
